@@ -8,6 +8,15 @@ mod simd {
     include!("suite.rs");
 }
 
+/// the same lanewise checks with `glam-assert` compiled in: the only assertion the integer vectors carry is
+/// clamp's `min <= max`, which the generated bounds satisfy (equal bounds included), so a panic there that the
+/// primitive does not raise is a failure
+mod asserting {
+    pub const VARIANT: &str = "simd+glam-assert";
+    use ::glam_assert as glam;
+    include!("suite.rs");
+}
+
 fn main() {
     let args = Args::parse();
     silence_panics();
@@ -19,7 +28,8 @@ fn main() {
         eprintln!("c13: profile mismatch: build={} harness overflow-checks={} glam overflow-checks={}", args.build, h, g);
         std::process::exit(2);
     }
-    let subs = simd::subs(&args);
+    let mut subs = simd::subs(&args);
+    subs.extend(asserting::subs(&args).into_iter().filter(|s| s.name.starts_with("lanewise/") || s.name.starts_with("boundary-pairs/")));
     let code = main_with("C13", "see MANIFEST / evidence rule", &args, subs);
     std::process::exit(code);
 }
